@@ -7,7 +7,7 @@ namespace Lungo.Conc
 
 /-- program counters at which an actor holds `e.mutex` -/
 def EHold (pc : Pc) : Prop :=
-  pc = .bCheck ∨ pc = .bSessLock ∨ pc = .bSessRead ∨ pc = .bPost ∨ pc = .cCheck ∨ pc = .cStore ∨
+  pc = .bCheck ∨ pc = .bPost ∨ pc = .cCheck ∨ pc = .cStore ∨
   pc = .aBody ∨ pc = .clKill ∨ pc = .kBody
 
 /-- local states in which an actor holds the writer token itself (between a successful
